@@ -46,12 +46,18 @@ Theorem c03_limit_le_max : forall cfg ops q,
 Proof. exact limit_le_max_hist. Qed.
 Print Assumptions c03_limit_le_max.
 
-(* 4. Hence: after any history of quota creations/updates, pending-pod arrivals, scheduling attempts
-      (PreFilter + Reserve, atomically or as two operations with any informer events in between),
-      unreserves, pod deletions and capacity changes, in any order, with well-formed operations
+(* 4. Hence: after any history of quota creations/updates (ARBITRARY key sets along a parent chain when
+      the limit is max; included in the parent's when runtime quota is on), pod arrivals in any phase,
+      scheduling attempts (PreFilter + Reserve, atomically or as two operations with any informer
+      events in between), unreserves, pod deletions, pod status updates (phase changes, the node
+      name appearing), preemptible relabels, allow-lent flips, capacity changes and scheduler
+      RESTARTS (a new manager, ReplaceQuotas, every pod object replayed), in any order, with
+      well-formed operations
       ([wf_hist]: quota objects the webhook accepts, non-negative requests, and a bare Reserve only
       for the pod whose PreFilter was the last admission decision) and in which no max is lowered
-      and no already-bound pod is replayed ([benign]),
+      and no pod is charged without admission ([benign]: no bound, non-terminated pod that was not
+      assigned before is replayed or assigned by an update event; a restart replays only pods that
+      were admitted before),
       every quota shows used <= max in every dimension it declares — for every quota when parent
       checking is on, for every quota without child quotas when it is off.  All four switch
       combinations ([cfg] is universally quantified). *)
@@ -107,6 +113,14 @@ Theorem c03_step_invariant : forall cfg wf st sn o,
   /\ EXI (wf && op_okb st sn o) (fst (step cfg st o)).
 Proof. exact ALL_step. Qed.
 Print Assumptions c03_step_invariant.
+
+(* 5r. A restart in particular: a quota that is still promised something is charged, by the replay,
+       only for pods that were assigned before; its used does not grow. *)
+Theorem c03_restart_keeps_invariant : forall cfg wf st,
+  INV cfg wf st -> EXI wf st ->
+  INV cfg wf (fst (step cfg st ORestart)) /\ EXI wf (fst (step cfg st ORestart)).
+Proof. exact restart_keeps. Qed.
+Print Assumptions c03_restart_keeps_invariant.
 
 (* 6. The decision procedure that bin/check runs on the IMPLEMENTATION's observations accepts
       everything the model produces, for all histories and all switch combinations ... *)
@@ -173,7 +187,7 @@ Proof. exact ex_hist_verdicts_proof. Qed.
 Example ex_bound_pod_bypasses_admission :
   let st := exec (mkConfig false true) init_state
                  [OQuotaAdd 1 0 true cm (v3 4 4 0) cm (v3 0 0 0) (v3 0 0 0);
-                  OPodAddBound 1 1 false (v3 9 1 0) cm] in
+                  OPodAddBound 1 1 false (v3 9 1 0) cm false] in
   map (fun q => (q_used q, q_max q, q_taint q)) (quotas st) = [(v3 9 1 0, v3 4 4 0, true)].
 Proof. exact ex_bound_pod_proof. Qed.
 
@@ -183,8 +197,27 @@ Example ex_parent_passes_max_without_check :
                  [OQuotaAdd 2 0 true cm (v3 4 4 0) cm (v3 0 0 0) (v3 0 0 0);
                   OQuotaAdd 3 2 true cm (v3 4 4 0) cm (v3 0 0 0) (v3 0 0 0);
                   OQuotaAdd 5 2 true cm (v3 4 4 0) cm (v3 0 0 0) (v3 0 0 0);
-                  OPodAdd 1 3 false (v3 3 1 0) cm; OPodAdd 2 5 false (v3 3 1 0) cm;
+                  OPodAdd 1 3 false (v3 3 1 0) cm false; OPodAdd 2 5 false (v3 3 1 0) cm false;
                   OAttempt 1; OAttempt 2] in
   map (fun q => (q_id q, q_used q, q_taint q)) (quotas st)
   = [(2, v3 6 2 0, true); (3, v3 3 1 0, false); (5, v3 3 1 0, false)].
 Proof. exact ex_parent_proof. Qed.
+
+(* key sets that differ along a parent chain (an intermediate quota lacks a dimension its parent and
+   its child declare), parent check on: the top quota's limit in that dimension is enforced *)
+Example ex_sandwich_ancestor_limit :
+  let cfg := mkConfig false true in
+  wf_hist cfg init_state None ex_sandwich = true /\ benign cfg init_state ex_sandwich = true
+  /\ map o_status (skipn 6 (run cfg init_state ex_sandwich)) = [0; 0; 1]
+  /\ map (fun q => (q_id q, q_used q, q_taint q)) (quotas (exec cfg init_state ex_sandwich))
+     = [(2, v3 2 0 2, false); (4, v3 2 0 2, false); (5, v3 2 0 2, false)].
+Proof. exact ex_sandwich_proof. Qed.
+
+(* a restart keeps the promise: the bound pod is charged again by the replay (its quota is not
+   tainted), the pod that was only reserved loses its assignment, the next pod is rejected *)
+Example ex_restart_keeps_promise : forall rt chk,
+  let cfg := mkConfig rt chk in
+  wf_hist cfg init_state None ex_restart = true /\ benign cfg init_state ex_restart = true
+  /\ map o_status (filter (fun o => negb (length (o_limits o) =? 0)%nat) (run cfg init_state ex_restart)) = [0; 0; 1]
+  /\ map (fun q => (q_used q, q_taint q)) (quotas (exec cfg init_state ex_restart)) = [(v3 6 6 0, false)].
+Proof. exact ex_restart_proof. Qed.
